@@ -132,6 +132,12 @@ public:
    SPxScaler(const SPxScaler&);
    /// assignment operator
    SPxScaler& operator=(const SPxScaler&);
+   /// re-targets the active scaling exponents to the arrays of \p lp (after the LP and the scaler have been copied)
+   void setActiveLP(SPxLPBase<R>& lp)
+   {
+      m_activeColscaleExp = &lp.LPColSetBase<R>::scaleExp;
+      m_activeRowscaleExp = &lp.LPRowSetBase<R>::scaleExp;
+   }
    /// destructor.
    virtual ~SPxScaler();
    /// clone function for polymorphism
